@@ -396,10 +396,14 @@ def run(an: Analysis, rep):
     rep.rule("R04.7", "len(args)", 1)
     from .common import purity
     rep.run(purity, an, rep, "R04.P", ["from_code", "parameters", "args_len"])
+    from .common import SharedRules as _SR4
+    from . import c01 as _c01
+    for V in VERSIONS:
+        rep.run(_c01.r014, an, _SR4(rep, "R04.F", "every flag a function's code object can legitimately carry is representable (shared with C01's R01.4): otherwise from_code raises and there is no signature / docstring / kind to report"), V)
     from .common import field_rewrite_rule, substring_rule
     rep.run(field_rewrite_rule, an, rep, "R04.8")
     rep.run(substring_rule, an, rep, "R04.9", ["parameters", "args_len"])
-    for fn in (r041, r041_unconditional, r042, r043, r044, r045, r046, r046_kind, r047):
+    for fn in (r041, r041_unconditional, r042, r043, r044, r045, r046, r046_kind, r046_module_await, r047):
         rep.run(fn, an, rep)
     from .common import SharedRules
     from . import c11
@@ -801,6 +805,69 @@ def r046_kind(an, rep):
         ok = got == want
         rep.add("R04.6", f"{top.qual}::Function.type for type flags {sorted(tset) or '{}'}", ok, loc(top.module, call),
                 f"-> {got!r}" if ok else f"a function whose code carries {sorted(tset) or 'none'} of the function-type flags decodes with type={got!r}; inspect classifies it as {want!r}")
+
+
+def r046_module_await(an, rep):
+    """Module code compiled with ast.PyCF_ALLOW_TOP_LEVEL_AWAIT (3.8+: the asyncio REPL, IPython, `compile(..., flags=...)`) that awaits at top level
+    carries CO_COROUTINE without being a function: it has to decode (with type None), not be rejected."""
+    from sa.feval import BlockEval, BlockOutcome
+    m = an.prog.module("code_data._code_data")
+    sets = {}
+    for name, exprs in m.assigns.items():
+        if len(exprs) == 1 and isinstance(exprs[0], ast.Set):
+            sets[name] = {e.value for e in exprs[0].elts if isinstance(e, ast.Constant)}
+    top = None
+    for f in an.closure("from_code"):
+        if any(isinstance(n, ast.Call) and isinstance(n.func, ast.Name) and n.func.id == "Function" for n in ast.walk(f.node)):
+            top = f
+    if top is None:
+        raise AnalysisError("function-kind inference not recognised")
+    chain = None
+    for st in top.node.body:
+        if isinstance(st, ast.If) and any(isinstance(n, ast.Call) and isinstance(n.func, ast.Name) and n.func.id == "Function" for n in ast.walk(st)):
+            chain = st
+    idx = top.node.body.index(chain)
+    flagvar = None
+    for n in ast.walk(inline_locals(top.node, chain.test)):
+        if isinstance(n, ast.Name) and n.id not in sets and n.id not in ("len",):
+            flagvar = n.id
+    # the statements from the chain to the first statement after it that can raise on left-over flags
+    tail = [chain]
+    for st in top.node.body[idx + 1:]:
+        tail.append(st)
+        if isinstance(st, ast.If) and any(isinstance(x, ast.Raise) for x in ast.walk(st)) and any(isinstance(x, ast.Name) and x.id == flagvar for x in ast.walk(st.test)):
+            break
+    else:
+        raise AnalysisError(f"{top.qual}: no rejection of left-over flags found after the function / non-function split")
+    pre = [st for st in top.node.body[:idx] if isinstance(st, ast.Assign) and len(st.targets) == 1 and isinstance(st.targets[0], ast.Name)
+           and any(isinstance(x, ast.Name) and x.id == st.targets[0].id for x in ast.walk(chain.test))]
+    placeholders = {}
+    outcome = None
+    for _attempt in range(8):
+        env = {k: frozenset(v) for k, v in sets.items()}
+        env[flagvar] = {"COROUTINE"}
+        env["len"] = len
+        env.update(placeholders)
+        be = BlockEval(lambda name: None, extra={})
+        try:
+            be.run_block(pre, env)
+            be.run_block(tail, env)
+            outcome = "decodes"
+            break
+        except BlockOutcome as o:
+            outcome = f"{o.kind}: {norm_src(o.node)[:70]}"
+            break
+        except FevalError as ex:
+            msg = str(ex)
+            if msg.startswith("free name ") and msg[10:] not in placeholders and msg[10:] != flagvar:
+                placeholders[msg[10:]] = ()
+                continue
+            raise AnalysisError(f"{top.qual}: non-function code with CO_COROUTINE not evaluable: {ex}")
+    ok = outcome == "decodes"
+    rep.add("R04.6", f"{top.qual}::module code with top-level await (CO_COROUTINE, no function flags) decodes", ok, loc(top.module, chain),
+            "the function-type flags are taken off also for code that is not a function" if ok else
+            f"for code with flags {{COROUTINE}} and neither NEWLOCALS nor OPTIMIZED the decoder ends in `{outcome}`: a module compiled with ast.PyCF_ALLOW_TOP_LEVEL_AWAIT that awaits "
+            f"at top level (asyncio REPL, IPython) cannot be decoded - it should decode with type None", config="3.8+")
 
 
 def _schema_enum(an):
